@@ -1187,6 +1187,48 @@ impl World {
         None
     }
 
+    /// `extern <file> <Type> <method>`: the method stays outside the translation; its callers take it as a parameter whose type
+    /// is read off the CURRENT signature (`&mut self` and `&mut` parameters are handed back next to the result).
+    pub fn tr_extern(&mut self, f: &File, ty_name: &str, name: &str, opts: &BTreeMap<String, String>) -> R<String> {
+        for it in &f.items {
+            if let Item::Impl(im) = it {
+                let self_name = match &*im.self_ty { Type::Path(p) => p.path.segments.last().map(|s| s.ident.to_string()).unwrap_or_default(), _ => String::new() };
+                if self_name != ty_name { continue; }
+                for ii in &im.items {
+                    if let ImplItem::Fn(m) = ii {
+                        if m.sig.ident != name || m.attrs.iter().any(|a| a.path().is_ident("cfg")) { continue; }
+                        let mut generics: BTreeMap<String, Ty> = BTreeMap::new();
+                        generics.insert("Self".into(), Ty::Named(ty_name.to_string()));
+                        for (k, v) in opts { if v.starts_with('@') { generics.insert(k.clone(), crate::tr::inst_ty(v)); } }
+                        let mut params: Vec<(Ty, bool)> = vec![];
+                        let (mut has_self, mut self_mut) = (false, false);
+                        for inp in &m.sig.inputs {
+                            match inp {
+                                FnArg::Receiver(r) => { has_self = true; self_mut = r.reference.is_some() && r.mutability.is_some(); params.push((Ty::Named(ty_name.to_string()), self_mut)); }
+                                FnArg::Typed(pt) => {
+                                    let by_mut = matches!(&*pt.ty, Type::Reference(r) if r.mutability.is_some());
+                                    params.push((self.ty_of(&pt.ty, &generics)?, by_mut));
+                                }
+                            }
+                        }
+                        let (ret, is_res) = match &m.sig.output { ReturnType::Default => (Ty::Unit, false), ReturnType::Type(_, t) => match self.ty_of(t, &generics)? { Ty::Res(x) => (*x, true), o => (o, false) } };
+                        let mut outs: Vec<String> = vec![];
+                        if ret != Ty::Unit { outs.push(self.lean_ty(&ret)?); }
+                        for (t, bm) in &params { if *bm { outs.push(self.lean_ty(t)?); } }
+                        let out = match outs.len() { 0 => "Unit".to_string(), 1 => outs[0].clone(), _ => format!("({})", outs.join(" × ")) };
+                        let ins: R<Vec<String>> = params.iter().map(|(t, _)| self.lean_ty(t)).collect();
+                        let lean_ty = format!("{} → M {}", ins?.join(" → "), paren(&out));
+                        let pname = format!("ext_{}_{}", ty_name, name);
+                        self.fns.insert(format!("{}.{}", ty_name, name), FnSig { lean: pname.clone(), params, ret, self_mut, has_self, uses_step: false, ret_is_res: is_res,
+                            uses_decompress: false, uses_w: false, view: None, uses_compress: false, rec_self: false, ext_ty: Some(lean_ty.clone()) });
+                        return Ok(format!("-- external: `{}::{}` is a parameter `{} : {}` of its callers (signature read from the source)\n", ty_name, name, pname, lean_ty));
+                    }
+                }
+            }
+        }
+        Err(format!("method {}::{} not found", ty_name, name))
+    }
+
     pub fn tr_fn(&mut self, f: &File, ty_name: Option<&str>, name: &str, opts: &BTreeMap<String, String>) -> R<String> {
         // locate
         let mut found: Option<(Signature, Block, Generics)> = None;
@@ -1303,12 +1345,12 @@ impl World {
             }
             let (rt, is_res) = match &sig.output { ReturnType::Default => (Ty::Unit, false), ReturnType::Type(_, t) => match self.ty_of(t, &generics)? { Ty::Res(x) => (*x, true), o => (o, false) } };
             self.fns.insert(fn_key.clone(), FnSig { lean: format!("{}.go", lean_name), params: ps, ret: rt, self_mut: false, has_self: false, uses_step: false, ret_is_res: is_res,
-                uses_decompress: declared_uses.contains(&"decompress"), uses_w: false, view: None, uses_compress: false, rec_self: true });
+                uses_decompress: declared_uses.contains(&"decompress"), uses_w: false, view: None, uses_compress: false, rec_self: true, ext_ty: None });
         }
         let mut ctx = Ctx {
             w: self, vars: vec![BTreeMap::new()], widths: Rc::new(RefCell::new(vec![])), ivar_parent: Rc::new(RefCell::new(vec![])),
             pre: vec![], ret_ty: Ty::Unit, muts: vec![], generics: generics.clone(), fuel: opts.get("fuel").cloned(),
-            self_ty: ty_name.map(|s| s.to_string()), fresh: 0, val_mode: vec![], mut_pat_binds: vec![], loop_fin: vec![], used_step: false, local_muts: vec![], used_decompress: false, used_wwrite: false, used_wflush: false, used_compress: false, used_merge: false, tuple_let: opts.contains_key("tuplelet"), xcodec: opts.contains_key("xcodec"), used_xcompress: false, used_xdecompress: false, pending_drops: vec![], elems: BTreeMap::new(), heads: BTreeMap::new(), views: BTreeMap::new(),
+            self_ty: ty_name.map(|s| s.to_string()), fresh: 0, val_mode: vec![], mut_pat_binds: vec![], loop_fin: vec![], used_step: false, local_muts: vec![], used_decompress: false, used_wwrite: false, used_wflush: false, used_compress: false, used_merge: false, tuple_let: opts.contains_key("tuplelet"), xcodec: opts.contains_key("xcodec"), used_xcompress: false, used_xdecompress: false, used_externs: vec![], pending_drops: vec![], elems: BTreeMap::new(), heads: BTreeMap::new(), views: BTreeMap::new(),
         };
         let mut params: Vec<String> = vec![];
         let mut rebinds: Vec<String> = vec![];
@@ -1442,6 +1484,10 @@ impl World {
         if used_decompress {
             text = text.replacen(&format!("def {} ", lean_name), &format!("def {} (decompress : CompressionType → List UInt8 → Option (List UInt8)) ", lean_name), 1);
         }
+        for (pn, pt) in ctx.used_externs.iter().rev() {
+            text = text.replacen(&format!("def {} ", lean_name), &format!("def {} ({} : {}) ", lean_name, pn, pt), 1);
+        }
+        let has_externs = !ctx.used_externs.is_empty();
         if ctx.used_xdecompress {
             text = text.replacen(&format!("def {} ", lean_name), &format!("def {} (xdecompress : String → List UInt8 → Option (List UInt8)) ", lean_name), 1);
         }
@@ -1476,6 +1522,7 @@ impl World {
             }
         }
         drop(ctx);
+        if has_externs && is_rec { return Err("recursive function over external methods".into()); }
         if is_rec {
             if used_step || uses_w || used_compress { return Err("recursive function over an external cursor / writer".into()); }
             if used_decompress != declared_uses.contains(&"decompress") { return Err("recursive function: declare `uses=decompress` exactly when it is used".into()); }
@@ -1487,7 +1534,7 @@ impl World {
         }
         self.fns.insert(
             fn_key,
-            FnSig { lean: plain_name, params: sig_params, ret: ret_inner, self_mut, has_self, uses_step: used_step, ret_is_res: matches!(ret, Ty::Res(_)), uses_decompress: used_decompress, uses_w, view, uses_compress: used_compress, rec_self: false },
+            FnSig { lean: plain_name, params: sig_params, ret: ret_inner, self_mut, has_self, uses_step: used_step, ret_is_res: matches!(ret, Ty::Res(_)), uses_decompress: used_decompress, uses_w, view, uses_compress: used_compress, rec_self: false, ext_ty: None },
         );
         Ok(text)
     }
